@@ -203,6 +203,10 @@ class _Run:
         self.body_ops = {}           # body -> [token lists]: what the callable does to the registry when it runs
         self.next_rid = 0
         self.cur_rid = None
+        self.nested = {}             # body -> names of tools the callable requests from the engine while it runs (search only)
+        self.depth = 0
+        self.cur = 0                 # index of the engine in use; the others are parked in `parked`
+        self.parked = {}             # engine index -> its (mito, cfg, ctor_tools, allowed, regs, body_ops, counter)
         lines = case["lines"]
         self.slot_ids = slots_in_case(lines)
         bodies = [l.split()[2 if l.startswith("reg ") else 4] for l in lines
@@ -218,16 +222,65 @@ class _Run:
         c = {"set": set, "frozenset": frozenset, "list": list, "tuple": tuple}.get(style, set)
         return None if al is None else c(self.tag(i) for i in al)
 
+    def switch(self, i, al=None, style="set"):
+        """`eng <i> [<ceiling> [container]]`: from now on the lines address engine i (created with that ceiling at its
+        first mention); engines share the callables and the tool objects handed from one to another (`share`)"""
+        if i == self.cur:
+            return
+        self.engine()                # an engine that is left has been constructed
+        self.parked[self.cur] = (self.mito, self.cfg, self.ctor_tools, self.allowed, self.regs, self.body_ops,
+                                 list(self.counter))
+        self.cur = i
+        if i in self.parked:
+            self.mito, self.cfg, self.ctor_tools, self.allowed, self.regs, self.body_ops, cnt = self.parked.pop(i)
+            self.counter[:] = cnt
+        else:
+            self.mito, self.cfg, self.ctor_tools, self.allowed, self.regs, self.body_ops = None, (al, style), [], al, {}, {}
+            self.counter[:] = []
+
+    def engine_view(self, j):
+        """(mito or None, regs) of engine j"""
+        if j == self.cur:
+            return self.mito, self.regs
+        if j in self.parked:
+            return self.parked[j][0], self.parked[j][4]
+        return None, {}
+
+    def share(self, name, j):
+        """the OBJECT engine j holds under <name> is engulfed by the engine in use as well"""
+        mito_j, regs_j = self.engine_view(j)
+        if j == self.cur or mito_j is None or name not in regs_j:
+            return
+        obj = mito_j.tools.get(decode(name))
+        if obj is None:
+            return
+        self.engine().engulf_tool(obj)
+        self.regs[name] = regs_j[name]
+        self.timeline.append(("reg", name, regs_j[name]))
+
+    def aliases(self, name):
+        """every other (engine, name) whose record is the same registration (the same tool object)"""
+        rid = self.regs[name]["rid"]
+        out = []
+        for j in sorted(set(self.parked) | {self.cur}):
+            for n_, r_ in self.engine_view(j)[1].items():
+                if r_["rid"] == rid and (j, n_) != (self.cur, name):
+                    out.append((j, n_))
+        return out
+
     def configure(self, al, style="set"):
+        self.cur = 0
+        self.parked = {}
         self.mito = None
         self.cfg = (al, style)
         self.ctor_tools = []
         self.allowed = al
         self.counter.clear()
-        self.regs.clear()
+        self.regs = {}
         self.fns.clear()
         self.slots.clear()
-        self.body_ops.clear()
+        self.nested = {}
+        self.body_ops = {}
 
     def engine(self):
         if self.mito is None:
@@ -245,6 +298,13 @@ class _Run:
                 self.counter.append(body)
                 self.timeline.append(("run", body, raises, self.cur_rid))
                 self.perform(self.body_ops.get(body, []))     # a body that uses the registration API itself
+                for nm in self.nested.get(body, []):          # a body that requests another tool from the engine
+                    if self.depth < 2:
+                        self.depth += 1
+                        try:
+                            self.engine().execute_tool_call(self.pp.ToolCall(id="n", name=decode(nm), arguments={}))
+                        finally:
+                            self.depth -= 1
                 if raises:
                     raise RuntimeError("tool body raised")
                 return body
@@ -304,10 +364,11 @@ class _Run:
         self.regs.pop(name, None)
         self.timeline.append(("unreg", name))
 
-    def redeclare(self, name, req, caps):
+    def redeclare(self, name, req, caps, inplace=False):
+        """-> the other (engine, name) pairs that hold the same object (their declaration changes with it)"""
         obj = self.engine().tools.get(decode(name))
         if obj is None or name not in self.regs:
-            return
+            return []
         for attr, val in (("required_capabilities", req), ("capabilities", caps)):
             if val is None:
                 try:
@@ -315,8 +376,18 @@ class _Run:
                 except AttributeError:
                     pass
             else:
-                setattr(obj, attr, {self.tag(i) for i in val})
-        self.regs[name] = dict(self.regs[name], req=req, caps=caps)
+                old = getattr(obj, attr, None)
+                if inplace and type(old) is set:
+                    old.clear()                      # the declared set itself is mutated: same object, new content
+                    old.update(self.tag(i) for i in val)
+                else:
+                    setattr(obj, attr, {self.tag(i) for i in val})
+        also = self.aliases(name)
+        new = dict(self.regs[name], req=req, caps=caps)
+        self.regs[name] = new
+        for j, n_ in also:
+            self.engine_view(j)[1][n_] = new
+        return also
 
     def perform(self, ops):
         for toks in list(ops):
@@ -412,6 +483,8 @@ class C03(Prop):
             raising = {}
             armed = []
             inflight = rng.random() < 0.45
+            multi = rng.random() < 0.2          # several engines alive, handing tool objects to each other
+            cur_eng = 0
             alike = rng.random() < 0.3          # look-alike spellings of the names in requests (and registrations)
 
             def spell(nm, p):
@@ -459,14 +532,23 @@ class C03(Prop):
                     ss = slots()
                     lines.append(f"met {mode} {callee} {a} other" + (" @" + ",".join(map(str, ss)) if ss else ""))
                 elif r < 0.59:
-                    lines.append("schemas")
+                    if multi:
+                        if rng.random() < 0.6:
+                            cur_eng = rng.choice([e for e in (0, 1, 2) if e != cur_eng][:2] if rng.random() < 0.8 else [2])
+                            lines.append(f"eng {cur_eng} {caps_str(self._rand_caps(rng))} "
+                                         f"{rng.choice(['set', 'set', 'frozenset', 'list'])}")
+                        else:
+                            lines.append(f"share {name} {rng.choice([e for e in (0, 1, 2) if e != cur_eng])}")
+                    else:
+                        lines.append("schemas")
                 elif r < 0.63:
                     lines.append(f"unreg {spell(name, 0.2)}")
                 elif r < 0.67:
                     lines.append(f"redecl {name} {caps_str(self._rand_caps(rng))} "
-                                 f"{caps_str(self._rand_caps(rng) if rng.random() < 0.3 else None)}")
+                                 f"{caps_str(self._rand_caps(rng) if rng.random() < 0.3 else None)} {rng.choice('ai')}")
                 elif r < 0.70:
-                    lines.append(f"setal {caps_str(self._rand_caps(rng))} {rng.choice(['set', 'frozenset', 'list', 'tuple'])}")
+                    lines.append(f"setal {caps_str(self._rand_caps(rng))} {rng.choice(['set', 'frozenset', 'list', 'tuple'])}"
+                                 + rng.choice(["", "", " i"]))
                 elif r < 0.83:
                     ss = slots()
                     lines.append(f"call {spell(name, 0.6)}" + (" @" + ",".join(map(str, ss)) if ss else ""))
@@ -484,6 +566,11 @@ class C03(Prop):
             if armed and rng.random() < 0.15:      # search-only tail: a call object with a scripted `name` property
                 lines.append(f"callx {rng.choice(NAMES)} {rng.randint(1, 5)} @{rng.choice(armed)}")
                 lines.append(rng.choice([f"call {rng.choice(NAMES)}", f"met forced-oxid name:{rng.choice(NAMES)} 1 other"]))
+            if nbody and rng.random() < 0.08:        # search-only tail: a tool body that requests a tool itself
+                lines.append(f"nest {rng.randint(1, nbody)} {rng.choice(NAMES)}")
+                for _k in range(rng.randint(1, 3)):
+                    nm = rng.choice(NAMES)
+                    lines.append(rng.choice([f"call {nm}", f"met forced-oxid name:{nm} 1 other", f"loop 2 1 uniq {nm};{nm}"]))
             yield {"lines": lines, "note": "random"}
 
     def exhaustive(self, tier):
@@ -625,6 +712,13 @@ class C03(Prop):
                                                f"arm 1 reg w 2 {caps_str(bad)} none 0 {style}", f"callx w {k} @1", e2],
                                      "note": "search-only: call object whose name property re-registers at its k-th read"})
         for al in ([], [0]):
+            ok, bad = al[:1], al[:1] + [2]
+            for style in "af":
+                for e in entries:
+                    infl.append({"lines": [f"cfg {caps_str(al)}", f"reg w 1 {caps_str(ok)} none 0 {style}",
+                                           f"reg f 2 {caps_str(bad)} none 0 {style}", "nest 1 f", e, "nest 1 w", e],
+                                 "note": "search-only: a permitted tool body requests a tool outside the ceiling (and itself)"})
+        for al in ([], [0]):
             for style in "af":
                 for e in ("met digest name:w 1 other", "met digest name:sqrt 1 other", "met digest name:sqrt 1 other @1"):
                     infl.append({"lines": [f"cfg {caps_str(al)}", f"reg w 1 2 none 0 {style}", f"reg sqrt 2 2 none 0 {style}",
@@ -640,9 +734,9 @@ class C03(Prop):
                     f"loop 2 1 {tok};{tok}"]
         for al in ([], [0]):
             ok, bad = al[:1], al[:1] + [2]
-            for base in ("w", "Foo", "tool_x"):
+            for base in (("w", "Foo", "tool_x") if tier != "quick" else ("w", "Foo")):
                 for v in LOOKALIKES[base]:
-                    for style in "af":
+                    for style in ("af" if tier != "quick" or base == "w" else "a"):
                         for e in entries_for(v):
                             look.append({"lines": [f"cfg {caps_str(al)}", f"reg {base} 1 {caps_str(bad)} none 0 {style}",
                                                    f"reg f 2 {caps_str(ok)} none 0 {style}", e],
@@ -660,6 +754,38 @@ class C03(Prop):
                 for e in entries_for(b_):
                     look.append({"lines": [f"cfg {caps_str(al)}", f"reg {a_} 1 {caps_str(bad)} none 0 a", e],
                                  "note": "exhaustive two look-alike spellings of each other (NFC/NFD, case/case)"})
+        # several engines alive: the same callable / the same tool OBJECT / the same name on a wide and on a narrow
+        # engine, used alternately; declarations and ceilings mutated IN PLACE between two uses
+        multi = []
+        for al_a in (None, [0, 2]):
+            for al_b in ([], [0]):
+                need = [2] if not al_b else [0, 2]          # inside A's ceiling, outside B's
+                for style in "af":
+                    for second in ("share w 0", f"reg w 1 {caps_str(need)} none 0 {style}", f"reg w 2 {caps_str(need)} none 0 {style}"):
+                        for e1 in (entries if tier != "quick" else entries[::2]):
+                            for e2 in entries:
+                                multi.append({"lines": [f"cfg {caps_str(al_a)}", f"reg w 1 {caps_str(need)} none 0 {style}", e1,
+                                                        f"eng 1 {caps_str(al_b)}", second, e2, "eng 0", e1, "eng 1", e2],
+                                              "note": "exhaustive two engines (wide / narrow ceiling) x same object, same callable or same name x entry-point pairs"})
+                                if tier == "quick" and not second.startswith("share"):
+                                    continue
+                                multi.append({"lines": [f"cfg {caps_str(al_a)}", f"reg w 1 {caps_str(need)} none 0 {style}",
+                                                        f"eng 1 {caps_str(al_b)}", second, "eng 0", e1, "eng 1", e2, "eng 0", e1],
+                                              "note": "exhaustive two engines, both set up before the first use: wide one used first"})
+        for al in ([], [0]):
+            ok, bad = al[:1], al[:1] + [2]
+            for e1 in entries:
+                for e2 in entries:
+                    for style in "acf":
+                        multi.append({"lines": [f"cfg {caps_str(al)}", f"reg w 1 {caps_str(ok)} none 0 {style}", e1,
+                                                f"redecl w {caps_str(bad)} none i", e2, f"redecl w {caps_str(ok)} none i", e2],
+                                      "note": "exhaustive declared set mutated in place on the live tool object"})
+                    multi.append({"lines": [f"cfg {caps_str(bad)} set", f"reg w 1 {caps_str(bad)} none 0 a", e1,
+                                            f"setal {caps_str(al)} set i", e2, f"setal {caps_str(bad)} set i", e2],
+                                  "note": "exhaustive ceiling set mutated in place on the live engine"})
+                    multi.append({"lines": [f"cfg {caps_str(bad)}", f"reg w 1 {caps_str(ok)} none 0 a", e1, "eng 1 -", "share w 0",
+                                            e1, "eng 0", f"redecl w {caps_str(bad)} none i", e2, "eng 1", e2],
+                                  "note": "exhaustive object shared by two engines re-declared in place through one of them"})
         spaces = [{"name": "container types (set/frozenset/list/tuple) of the ceiling and of the tool's declaration x entry points",
                  "cases": cont},
                 {"name": "re-registration histories: allowed/used/re-registered outside the ceiling x entry-point pairs",
@@ -678,11 +804,14 @@ class C03(Prop):
                  "cases": cases},
                 {"name": "look-alike spellings of a registered name (case, blanks, full-width, NFC/NFD, qualified, -/_) in the request "
                          "or in the registration x entry point",
-                 "cases": look}]
+                 "cases": look},
+                {"name": "several engines alive (wide / narrow ceiling; same object handed over, same callable, same name) used "
+                         "alternately; declared set / ceiling set mutated in place x entry-point pairs",
+                 "cases": multi}]
         if tier != "quick":
             return spaces
         # quick tier: one model-driver start costs ~2.5 s, so the spaces are run in three batches
-        groups = [[0, 1, 2, 7], [3, 4, 5], [6, 8]]
+        groups = [[0, 1, 2, 7], [3, 4, 5, 9], [6, 8]]
         return [{"name": " + ".join(spaces[i]["name"] for i in g), "cases": [c for i in g for c in spaces[i]["cases"]]}
                 for g in groups]
 
@@ -722,7 +851,8 @@ class C03(Prop):
             elif not started:
                 R.configure(None)
                 started = True
-                if t[0] not in ("reg", "met", "call", "callx", "loop", "unreg", "schemas", "redecl", "setal", "arm", "body"):
+                if t[0] not in ("reg", "met", "call", "callx", "loop", "unreg", "schemas", "redecl", "setal", "arm", "body",
+                                "eng", "share", "nest"):
                     obs.append("bad-op")
                     info.append({"ran": [], "ceiling": None, "start_reg": {}, "timeline": []})
                     continue
@@ -733,13 +863,37 @@ class C03(Prop):
                 R.unregister(t[1])
                 obs.append("ok")
             elif t[0] == "redecl":
-                R.redeclare(t[1], parse_caps(t[2]), parse_caps(t[3]))
+                also = R.redeclare(t[1], parse_caps(t[2]), parse_caps(t[3]), inplace=len(t) > 4 and t[4] == "i")
+                # recorded for the model (tools are values there): who else holds the object that was re-declared
+                t = t[:4] + [t[4] if len(t) > 4 and t[4] in ("a", "i") else "a"]
+                if also:
+                    t.append("also:" + ",".join(f"{j}:{n_}" for j, n_ in also))
+                case["lines"][li] = " ".join(t)
                 obs.append("ok")
             elif t[0] == "setal":
                 al = parse_caps(t[1])
-                R.engine().allowed_capabilities = R.conv(al, t[2] if len(t) > 2 else "set")
+                cur_al = R.engine().allowed_capabilities
+                if len(t) > 3 and t[3] == "i" and type(cur_al) is set and al is not None:
+                    cur_al.clear()                   # the ceiling object itself is mutated in place
+                    cur_al.update(R.tag(i) for i in al)
+                else:
+                    R.engine().allowed_capabilities = R.conv(al, t[2] if len(t) > 2 else "set")
                 R.allowed = al
                 obs.append("ok")
+            elif t[0] == "eng":
+                if len(t) >= 2 and t[1].isdigit() and int(t[1]) < 4:
+                    R.switch(int(t[1]), parse_caps(t[2]) if len(t) > 2 else None, t[3] if len(t) > 3 else "set")
+                    n0 = len(counter)
+                    start_reg = dict(R.regs)
+                    obs.append("ok")
+                else:
+                    obs.append("bad-op")
+            elif t[0] == "share":
+                if len(t) == 3 and t[2].isdigit():
+                    R.share(t[1], int(t[2]))
+                    obs.append("ok")
+                else:
+                    obs.append("bad-op")
             elif t[0] == "arm":
                 if len(t) >= 4 and t[1].isdigit() and ((t[2] == "reg" and len(t) >= 8) or (t[2] == "unreg" and len(t) == 4)):
                     R.slots.setdefault(int(t[1]), []).append(t[2:])
@@ -752,6 +906,14 @@ class C03(Prop):
                     obs.append("ok")
                 else:
                     obs.append("bad-op")
+            elif t[0] == "nest":
+                # SEARCH ONLY (no model: tool bodies do not request tools there): from now on the callable <body> asks
+                # the engine for tool <name> (execute_tool_call) whenever it runs; this line and everything after it
+                # answer `skip`, the oracle still judges every body that runs
+                if len(t) == 3 and t[1].isdigit():
+                    R.nested.setdefault(int(t[1]), []).append(t[2])
+                skipping = True
+                obs.append("skip")
             elif t[0] == "schemas":
                 try:
                     R.engine().export_tool_schemas()
